@@ -317,12 +317,15 @@ inductive BoundArg where
   | ty (t : Ty)
   | pred (p : WPred)
   | dots
+  /-- an entry that is neither `..`, a where-predicate nor a type: refused when the attribute is parsed -/
+  | bad (toks : Toks)
 deriving Inhabited
 
 def BoundArg.toks : BoundArg → Toks
   | .ty t => t.toks
   | .pred p => p.toks
   | .dots => [".."]
+  | .bad ts => ts
 
 def boundArgToks (bs : List BoundArg) : Toks := "bound" :: paren (sepBy "," (bs.map BoundArg.toks))
 
@@ -348,6 +351,9 @@ structure CmpArgs where
   by_ : Option Toks := none
   /-- `key` expression; the token `$` marks the placeholder -/
   key : Option Toks := none
+  /-- the `key` expression uses `$` where only a name can stand (`$.$`, `$ { .. }`, `let $ = ..`): the expander
+  substitutes a parenthesized expression for `$` and refuses such a template when the attribute is parsed -/
+  keyBad : Bool := false
   bound : Option (List BoundArg) := none
 deriving Inhabited
 
